@@ -8,6 +8,7 @@
 From Coq Require Import List ZArith Bool.
 Import ListNotations.
 Require Import Gram.Model.Term Gram.Model.DeBruijn Gram.Model.Eval Gram.Model.Token Gram.Gen.ValueForms Gram.Model.Printer Gram.Proofs.FormsProofs.
+Require Gram.Model.Grammar Gram.Proofs.SoundProofs Gram.Proofs.PrintProofs.
 
 Theorem C16_group_bare_is_atoms : group_bare = [FType; FVar; FInt; FLit; FBool; FTrue; FFalse].
 Proof. exact group_bare_is_atoms. Qed.
@@ -34,3 +35,27 @@ Theorem C16_examples :
 Proof. vm_compute. repeat split; reflexivity. Qed.
 Check C16_examples : _ /\ _ /\ _.
 Print Assumptions C16_examples.
+
+(* What the printer shows is a SENTENCE of the published grammar, with each printing position at the nonterminal the
+   printer intends (Proofs/PrintProofs.v, against the grammar regenerated from grammar.y): for every term without the
+   recorded defect D12 (an implicit function type with unused variable) and without negative literals (the parser never
+   produces one). The exclusions are exact up to a size bound: on 10395 small terms covering every printing position
+   the printed tokens are a sentence IF AND ONLY IF the term is in the exact class (negative literals are harmful
+   only as a definition's annotation or in the domain of a non-dependent function type); D12 and those shapes are
+   refuted inside Coq by a verified recogniser. *)
+Theorem C16_print_is_sentence : forall t, PrintProofs.printable t = true -> SoundProofs.derives Grammar.Term (print t).
+Proof. exact PrintProofs.print_is_sentence. Qed.
+Check C16_print_is_sentence : forall t, PrintProofs.printable t = true -> SoundProofs.derives Grammar.Term (print t).
+Print Assumptions C16_print_is_sentence.
+
+Theorem C16_exclusions_are_exact_on_small_terms : forall t, In t PrintProofs.small_terms ->
+  (SoundProofs.derives Grammar.Term (print t) <-> PrintProofs.printable_exact t = true).
+Proof. exact PrintProofs.exact_on_small_terms. Qed.
+Check C16_exclusions_are_exact_on_small_terms : forall t, In t PrintProofs.small_terms ->
+  (SoundProofs.derives Grammar.Term (print t) <-> PrintProofs.printable_exact t = true).
+Print Assumptions C16_exclusions_are_exact_on_small_terms.
+
+Theorem C16_D12_is_not_a_sentence : ltac:(let T := type of PrintProofs.unused_implicit_pi_not_sentence in exact T).
+Proof. exact PrintProofs.unused_implicit_pi_not_sentence. Qed.
+Check C16_D12_is_not_a_sentence : _ /\ ~ SoundProofs.derives Grammar.Term (print (TPi true TInt TInt)).
+Print Assumptions C16_D12_is_not_a_sentence.
